@@ -41,6 +41,9 @@ type Config struct {
 	Debug       int
 	TracePoints bool // record schedule points in the event log
 	ProcOps     bool // the implementation also implements SrvReqProcessOps
+	// Ifaces restricts the optional interfaces the implementation provides: "" = ConnOps + SrvFidOps (+ the ones
+	// selected above), "conn-only" = ConnOps only, "fid-only" = SrvFidOps only, "req-only" = none
+	Ifaces string
 }
 
 type Sess struct {
@@ -66,6 +69,12 @@ func NewSess(cfg Config) *Sess {
 	s.Srv.Id = "verif"
 	var ops interface{}
 	switch {
+	case cfg.Ifaces == "conn-only":
+		ops = script.ConnOnly(s.Ops)
+	case cfg.Ifaces == "fid-only":
+		ops = script.FidOnly(s.Ops)
+	case cfg.Ifaces == "req-only":
+		ops = script.ReqOnly(s.Ops)
 	case cfg.ProcOps && cfg.Auth && cfg.Flush:
 		ops = script.WithProcAuthFlush{WithAuthFlush: script.WithAuthFlush{Ops: s.Ops}}
 	case cfg.ProcOps && cfg.Auth:
@@ -148,6 +157,11 @@ func (s *Sess) Dial() *CConn {
 	c.cond = sync.NewCond(&c.mu)
 	if s.Ops == nil {
 		s.Srv.NewConn(srv)
+	} else if s.Cfg.Ifaces == "fid-only" || s.Cfg.Ifaces == "req-only" {
+		// no ConnOpened: the implementation numbers the connection when it sees its first request (connections of
+		// such a session are dialled and used one after the other)
+		s.Srv.NewConn(srv)
+		c.ID = s.Ops.NConn() + 1
 	} else {
 		before := s.Ops.NConn()
 		s.Srv.NewConn(srv)
